@@ -66,6 +66,8 @@ def curated(tier):
     for kind in ("J", "Y"):
         add("bessel", "triangle", p={"kind": kind, "nu": 1})
         add("bessel", "tetrahedron", p={"kind": kind, "nu": 0})
+    for cell in ("triangle", "hexahedron", "interval"):
+        add("submesh_codim0", cell, p={"which": 0})
     add("manifold_mass", "triangle", gdim=3)
     add("manifold_mass", "interval", gdim=2, cdeg=2)
     add("manifold_mass", "interval", gdim=3)
